@@ -27,7 +27,7 @@ LEVEL = "fault_enumeration"
 RULE = ("histories of 1..6 manager start-ups against one device and one PIN file: initial file "
         "state {present, absent, invalid}, forced change, device reaction to the new PIN {accept, "
         "refuse, status error, link error before apply, ack lost after apply, timeout}, file "
-        "fault {none, open fails, write fails after truncation}, crash at each step boundary "
+        "fault {none, open fails, write fails after truncation, directory takes no new entry, file unreadable}, crash at each step boundary "
         "{unlock, change received, change applied, file open, file write, after write}, for "
         "Ledger and SGX PIN commands, one scenario in eight through the manager programs "
         "(manager_ledger.py / manager_sgx.py as __main__, PIN in the environment, -X); complete "
@@ -46,7 +46,8 @@ DEFAULT = b"abcd1234"
 REACTIONS = ["accept", "refuse", "refuse-odd", "swerr", "comm", "ack-lost", "timeout"]
 # "dir-no-create": the PIN file itself may be rewritten, but no entry may be created in, renamed
 # into or removed from its directory (a file bind-mounted alone, a root-owned directory)
-FILE_FAULTS = [None, "open", "write", "dir-no-create"]
+# "read": the PIN file exists but cannot be read (rights, I/O error)
+FILE_FAULTS = [None, "open", "write", "dir-no-create", "read"]
 CRASHES = [None, "unlock", "newpin_rx", "newpin_applied", "file_open_w", "file_write",
            "file_written"]
 ALNUM = set((string.ascii_letters + string.digits).encode())
@@ -193,6 +194,9 @@ def run_start(w, pf, op, platform, program=False):
             if ff == "dir-no-create" and not (os.path.exists(path) and
                                               os.path.samefile(path, pf)):
                 raise PermissionError(13, "Permission denied")
+        elif ff == "read":
+            hook("file_open_r")
+            raise PermissionError(13, "Permission denied")
         return F(real_open(path, mode, *a, **k))
 
     class DirLockedOs:
@@ -219,7 +223,10 @@ def run_start(w, pf, op, platform, program=False):
             from vlib import managers
             argv = ["-b", "127.0.0.1", "-p", "0", "-l", os.path.join(tmpdir(), "no-log.cfg"),
                     "-P", pf] + (["-X"] if op["force"] else [])
-            r = managers.run_manager(platform, argv, {"PIN": DEFAULT.decode()}, w)
+            # the configured default: the device's PIN when there is no file to take it from,
+            # something else when there is (the file is what counts then)
+            env_pin = DEFAULT.decode() if read_file(pf) is None else "envp9999"
+            r = managers.run_manager(platform, argv, {"PIN": env_pin}, w)
             res["out"] = "serve" if r["served"] else \
                 ("crash" if r["end"] == "raised:Dead" else "stopped")
             raise _Done()
@@ -303,6 +310,13 @@ def run_case(c):
         if new_pins:
             attempted_change = True
             labels.append("change:" + op["reaction"])
+        if c.get("program"):
+            if res["out"] == "serve":
+                labels.append("program:served")
+            if new_pins:
+                labels.append("program:change-attempted")
+            if adopted and file_after == dev_after:
+                labels.append("program:change-committed")
         # (c) every PIN the manager generates satisfies the device policy
         for pnew in new_pins:
             if not policy_ok(pnew):
@@ -345,7 +359,7 @@ def run_case(c):
         # any exception out of the bring-up stops it)
         if new_pins and res["out"] not in ("interrupt", "error", "crash", "stopped"):
             raise Violation("manager-carried-on-after-change-attempt", where)
-        if new_pins and res["out"] == "interrupt":
+        if new_pins and res["out"] in ("interrupt", "stopped"):
             after = False
             for e in log:
                 if e[0] == "newpin_rx":
@@ -592,7 +606,8 @@ def run_generator(c):
 
 REQUIRED_LABELS = {t: ["reconnect", "reconnect-change", "path:plain",
                        "path:dotdot-through-symlink", "path:redundant-separators", "gen:first-block-rejected|gen:rng-not-scripted",
-                       "gen:first-block-valid|gen:rng-not-scripted", "platform:Ledger", "platform:SGX", "via-manager-program", "file0:present", "file0:absent",
+                       "gen:first-block-valid|gen:rng-not-scripted", "platform:Ledger", "platform:SGX", "via-manager-program", "program:served",
+                       "program:change-attempted", "program:change-committed", "file0:present", "file0:absent",
                        "file0:invalid", "out:serve", "out:interrupt", "out:crash",
                        "out:pinerror", "change:accept", "change:refuse", "change:swerr",
                        "change:comm", "change:timeout", "known-finding-hit"]
